@@ -160,7 +160,9 @@ impl<T: ValueRef<U> + ?Sized, U: PrimitiveValueType> ArrayBuilder for BytesArray
     }
 
     fn replace_bitmap(&mut self, valid: BitVec) {
-        let _ = mem::replace(&mut self.valid, valid);
+        let kept = self.valid.len() - valid.len();
+        self.valid.truncate(kept);
+        self.valid.extend_from_bitslice(&valid);
     }
 
     fn with_capacity(capacity: usize) -> Self {
